@@ -39,15 +39,19 @@ func vpH_C16_stats() {
 	if vpChoice("independent-freqs", 2) == 1 {
 		// every term has its own symbolic frequency: small shapes only
 		g.perTermFreq = true
-		a = g.batch("A", 1, 1, []int{3, 4, 5, 9})
-		b = g.batch("B", 0, 1, []int{5, 9})
+		a = g.batch("A", 1, 1, []int{3, 4, 5, 9, 10})
+		b = g.batch("B", 0, 1, []int{5, 9, 10})
 	} else {
 		maxB := 1
 		if vpThorough() {
 			maxB = 2
 		}
-		a = g.batch("A", 1, 2, []int{2, 3, 4, 5, 6, 9})
-		b = g.batch("B", 0, maxB, []int{2, 5, 9})
+		tplA, tplB := []int{3, 4, 5, 10}, []int{5, 10}
+		if vpThorough() {
+			tplA, tplB = []int{2, 3, 4, 5, 6, 9, 10}, []int{2, 5, 9, 10}
+		}
+		a = g.batch("A", 1, 2, tplA)
+		b = g.batch("B", 0, maxB, tplB)
 	}
 	g.done()
 	vpSetLengths(a)
